@@ -274,8 +274,10 @@ func repoFrame() string {
 		fr, more := frames.Next()
 		if strings.Contains(fr.Function, "github.com/nlnwa/whatwg-url/") && !strings.Contains(fr.File, "verif_on.go") {
 			file := fr.File
-			if i := strings.Index(file, "/repo/"); i >= 0 {
-				file = file[i+6:]
+			if i := strings.LastIndex(file, "/url/"); i >= 0 {
+				file = file[i+1:]
+			} else if i := strings.LastIndex(file, "/canonicalizer/"); i >= 0 {
+				file = file[i+1:]
 			}
 			return fmt.Sprintf("%s:%d", file, fr.Line)
 		}
